@@ -53,6 +53,7 @@ Qed.
 
 (* ------------------------------------------------------------------ the named phases depend on the data only through its length *)
 Section SetData.
+Variable kf : name_key.
 Variables (a : archive) (d : bytes).
 Hypothesis Hlen : lenN d = size a.
 Let b := set_data a d.
@@ -65,55 +66,55 @@ Lemma pool_bytes_set_data : pool_bytes b = pool_bytes a.
 Proof. unfold pool_bytes. rewrite cs_run_set_data. reflexivity. Qed.
 Lemma all_ptrs_set_data : all_ptrs b = all_ptrs a.
 Proof. unfold all_ptrs, cs_ptrs. rewrite cs_run_set_data. reflexivity. Qed.
-Lemma lab_run_set_data : lab_run b = lab_run a.
+Lemma lab_run_set_data : lab_run kf b = lab_run kf a.
 Proof. reflexivity. Qed.
 Lemma txt_sorted_set_data : txt_sorted b = txt_sorted a.
 Proof. reflexivity. Qed.
-Lemma text_start_set_data : text_start b = text_start a.
+Lemma text_start_set_data : text_start kf b = text_start kf a.
 Proof. unfold text_start. rewrite size_set_data, pool_bytes_set_data, all_ptrs_set_data. reflexivity. Qed.
 Lemma ser_data_set_data :
-  ser_data b = (d1 <- poke_all (a_endian a) d (all_ptrs a) ;; emit_text (a_endian a) (text_start a) (txt_sorted a) d1 (fst (lab_run a)) []).
+  ser_data kf b = (d1 <- poke_all (a_endian a) d (all_ptrs a) ;; emit_text (a_endian a) (text_start kf a) (txt_sorted a) d1 (fst (lab_run kf a)) []).
 Proof. unfold ser_data. rewrite text_start_set_data, all_ptrs_set_data. reflexivity. Qed.
-Lemma assemble_set_data m r : assemble b m r = assemble a m r.
+Lemma assemble_set_data m r : assemble kf b m r = assemble kf a m r.
 Proof. unfold assemble. rewrite size_set_data, pool_bytes_set_data, all_ptrs_set_data. reflexivity. Qed.
 End SetData.
 
 (* ------------------------------------------------------------------ re-serializing the poked data *)
-Lemma serialize_poked m m' a f : wf_archive a -> fits32 a -> serialize m a = Ok f ->
-  exists d2 tpool2 groups, ser_data a = Ok (d2, tpool2, groups) /\ lenN d2 = size a /\ wfb d2 /\
-    serialize m' (set_data a d2) = Ok f.
+Lemma serialize_poked kf m m' a f : wf_archive a -> fits32 a -> serialize_k kf m a = Ok f ->
+  exists d2 tpool2 groups, ser_data kf a = Ok (d2, tpool2, groups) /\ lenN d2 = size a /\ wfb d2 /\
+    serialize_k kf m' (set_data a d2) = Ok f.
 Proof.
   intros WF FIT Ef.
-  destruct (ser_facts a WF) as (d2 & tpool2 & groups & ltab & Es & L2 & W2 & Hptr & Hstr & Hnth & Hok2 & Wp & Hlen & Erl & HF & Hperm).
+  destruct (ser_facts kf a WF) as (d2 & tpool2 & groups & ltab & Es & L2 & W2 & Hptr & Hstr & Hnth & Hok2 & Wp & Hlen & Erl & HF & Hperm).
   exists d2, tpool2, groups. split; [exact Es|]. split; [exact L2|]. split; [exact W2|].
-  assert (Ei : forall mm, assemble a mm (d2, tpool2, groups) = Ok (image_of a d2 tpool2 groups ltab)) by (intros mm; apply assemble_ok; assumption).
+  assert (Ei : forall mm, assemble kf a mm (d2, tpool2, groups) = Ok (image_of a d2 tpool2 groups ltab)) by (intros mm; apply assemble_ok; assumption).
   assert (E : f = image_of a d2 tpool2 groups ltab).
   { rewrite serialize_unfold, Es in Ef. cbn [bind] in Ef. rewrite Ei in Ef. inversion Ef. reflexivity. }
-  rewrite serialize_unfold, (ser_data_set_data a d2 L2).
+  rewrite serialize_unfold, (ser_data_set_data kf a d2 L2).
   rewrite (poke_all_same _ _ d2 W2 Hptr). cbn [bind].
   (* the first run of the string phase *)
   unfold ser_data in Es. destruct (poke_all (a_endian a) (a_data a) (all_ptrs a)) as [d1| |] eqn:E1; cbn [bind] in Es; try discriminate.
   destruct (poke_all_spec (a_endian a) (all_ptrs a) (a_data a) (ptr_cells_ok a WF)) as (d1' & E1' & L1 & _). rewrite E1 in E1'. inversion E1'; subst d1'.
-  destruct (lab_facts a WF) as (lt' & _ & Hok1 & _).
+  destruct (lab_facts kf a WF) as (lt' & _ & Hok1 & _).
   assert (Hc : cells_ok (lenN d1) (map fst (txt_sorted a))) by (rewrite L1; apply txt_cells_ok; exact WF).
   rewrite (emit_text_rerun _ _ _ _ _ _ _ _ _ Hok1 Hc Es d2 W2) by reflexivity. cbn [bind].
-  rewrite (assemble_set_data a d2 L2), Ei, E. reflexivity.
+  rewrite (assemble_set_data kf a d2 L2), Ei, E. reflexivity.
 Qed.
 
 (* ------------------------------------------------------------------ C02: parse, then serialize again *)
 Lemma no_cstrs_pool a : a_cstrs a = [] -> cs_ptrs a = [] /\ pool_bytes a = [].
 Proof. intros E. unfold cs_ptrs, pool_bytes, cs_run, cs_sorted. rewrite E. split; reflexivity. Qed.
 
-Theorem reserialize_identity : forall m m' a f a',
+Theorem reserialize_identity : forall kf m m' a f a',
   wf_archive a -> a_cstrs a = [] -> fits32 a ->
-  serialize m a = Ok f -> from_bytes (a_endian a) f = Ok a' -> serialize m' a' = Ok f.
+  serialize_k kf m a = Ok f -> from_bytes (a_endian a) f = Ok a' -> serialize_k kf m' a' = Ok f.
 Proof.
-  intros m m' a f a' WF Hcs FIT Ef Ep.
-  destruct (serialize_conforms m a WF FIT) as (f0 & Ef0 & _ & Hc). rewrite Ef in Ef0. inversion Ef0; subst f0.
+  intros kf m m' a f a' WF Hcs FIT Ef Ep.
+  destruct (serialize_conforms kf m a WF FIT) as (f0 & Ef0 & _ & Hc). rewrite Ef in Ef0. inversion Ef0; subst f0.
   destruct (parser_correct _ _ _ Hc) as (a0 & Ep0 & Hd & He & Hcs' & Gp & Gt & Gl & Np & Nt & Nl). rewrite Ep in Ep0. inversion Ep0; subst a0.
-  destruct (serialize_poked m m' a f WF FIT Ef) as (d2 & tpool2 & groups & Es & L2 & W2 & Eb).
+  destruct (serialize_poked kf m m' a f WF FIT Ef) as (d2 & tpool2 & groups & Es & L2 & W2 & Eb).
   destruct (no_cstrs_pool a Hcs) as [Ecp Epb].
-  rewrite (published_eq a d2 tpool2 groups Es) in Hd, Gp, Gt, Gl. cbn [c_data c_ptrs c_text c_labels] in Hd, Gp, Gt, Gl.
+  rewrite (published_eq kf a d2 tpool2 groups Es) in Hd, Gp, Gt, Gl. cbn [c_data c_ptrs c_text c_labels] in Hd, Gp, Gt, Gl.
   rewrite Epb, app_nil_r in Hd. rewrite Ecp, app_nil_r in Gp.
   rewrite <- Eb. symmetry. apply serialize_deterministic.
   - pose proof (wf_cells_nodup a WF) as Hn. unfold cells in Hn. cbn [set_data a_text a_ptrs a_labels]. split; [|split].
@@ -126,14 +127,14 @@ Proof.
 Qed.
 
 (* the same, for any archive that answers every lookup like the parsed one *)
-Corollary reserialize_identity_lookups : forall m m' a f a' a'',
+Corollary reserialize_identity_lookups : forall kf m m' a f a' a'',
   wf_archive a -> a_cstrs a = [] -> fits32 a ->
-  serialize m a = Ok f -> from_bytes (a_endian a) f = Ok a' ->
-  maps_are_maps a'' -> same_observations a' a'' -> serialize m' a'' = Ok f.
+  serialize_k kf m a = Ok f -> from_bytes (a_endian a) f = Ok a' ->
+  maps_are_maps a'' -> same_observations a' a'' -> serialize_k kf m' a'' = Ok f.
 Proof.
-  intros m m' a f a' a'' WF Hcs FIT Ef Ep Hm Hs.
-  rewrite <- (reserialize_identity m m' a f a' WF Hcs FIT Ef Ep). symmetry. apply serialize_deterministic; [|exact Hm|exact Hs].
-  destruct (serialize_conforms m a WF FIT) as (f0 & Ef0 & _ & Hc). rewrite Ef in Ef0. inversion Ef0; subst f0.
+  intros kf m m' a f a' a'' WF Hcs FIT Ef Ep Hm Hs.
+  rewrite <- (reserialize_identity kf m m' a f a' WF Hcs FIT Ef Ep). symmetry. apply serialize_deterministic; [|exact Hm|exact Hs].
+  destruct (serialize_conforms kf m a WF FIT) as (f0 & Ef0 & _ & Hc). rewrite Ef in Ef0. inversion Ef0; subst f0.
   destruct (parser_correct _ _ _ Hc) as (a0 & Ep0 & _ & _ & _ & _ & _ & _ & Np & Nt & Nl). rewrite Ep in Ep0. inversion Ep0; subst a0.
   unfold maps_are_maps. auto.
 Qed.
